@@ -17,14 +17,24 @@ DOMAIN = {
     "g": [None, "6c0e37e3-e856-45ee-bd58-484b11882c67", "00000000-0000-0000-0000-000000000001"],
     "dd": [None, dt.date(2020, 1, 1), dt.date(2019, 12, 31), dt.date(2021, 6, 15)],
 }
+# machine-number rows: Int64 extremes and non-dyadic fractions, where regrouping or
+# reordering arithmetic changes the result although no intermediate value of the source
+# grouping leaves its type's range
+BOUNDARY = dict(DOMAIN, **{
+    "a": [9223372036854775807, -9223372036854775807, 4611686018427387904, 3, None],
+    "b": [1, -1, 2, 4611686018427387904],
+    "c": [-1, -3, 1, None],
+    "f": [0.1, 0.2, 0.3, 0.7, 1e16, -0.1],
+})
 DEFAULT = {"a": 1, "b": 2, "c": None, "s": "ab", "u": "b", "d": dt.datetime(2020, 1, 1),
            "flag": True, "f": 2.5, "g": None, "dd": dt.date(2020, 1, 1)}
 COLS = ["a", "b", "c", "s", "u", "d", "flag", "f", "g", "dd"]
 
 
-def rows_for(cols, rng, cap=400):
+def rows_for(cols, rng, cap=400, domain=None):
+    domain = domain or DOMAIN
     cols = [c for c in COLS if c in cols]
-    doms = [DOMAIN[c] for c in cols]
+    doms = [domain[c] for c in cols]
     total = 1
     for d in doms:
         total *= len(d)
